@@ -155,6 +155,11 @@ func funcNud(p *parser, t *token) *token {
 }
 
 func returnNud(p *parser, t *token) *token {
+	if p.Token.Pos.Line != t.Pos.Line {
+		// a line end after "return" ends the statement (Go's semicolon
+		// insertion): what follows is the next, unreachable, statement
+		return t
+	}
 	for p.Token.Symbol != "}" && p.Token.Symbol != ";" && p.Token.Symbol != "case" && p.Token.Symbol != "default" {
 		t.Append(p.Expression(commaBP))
 		if p.Token.Symbol != "," {
